@@ -49,7 +49,9 @@ func selectSession(msg message.RpcMessage) getty.Session {
 	if sessionManager == nil {
 		return nil
 	}
-	return sessionManager.selectSession(msg)
+	// the load balancers route by the xid of the request, which is a field of
+	// the message body, not of the rpc envelope
+	return sessionManager.selectSession(msg.Body)
 }
 
 func newGettyRemoting() *GettyRemoting {
